@@ -45,6 +45,7 @@ fn main() {
         "replay" => {
             sev::engine::install_panic_hook();
             let f = PathBuf::from(args.get(2).cloned().unwrap_or_else(|| usage()));
+            sev::known::set_strict(true);
             match sev::report::replay_file(&f, Tier::Quick) {
                 Ok(None) => {
                     println!("PASS {}", f.display());
@@ -96,6 +97,9 @@ fn main() {
                     std::process::exit(2)
                 }
             }
+        }
+        "transcript" => {
+            sev::props::c20::child_main();
         }
         "list" => {
             for p in sev::props::ALL {
